@@ -290,8 +290,16 @@ def c11c(ctx, tu):
                     if ev["e"] == "decl" and ev.get("init") == ["bool", True] and ev.get("type") == "bool":
                         at = ev["var"]
                 bad = None
+                # when the walk over the range can only be left through its own condition (no break), the range is
+                # exhausted whenever the final verdict is computed: rows with "not exhausted" cannot occur there
+                main = [l for l in cfg.loops(fn) if ("['var', %d," % it) in str(cfg.cond_of(fn, l["head"])) or
+                        ("['var', %d," % it) in str(cfg.cond_of(fn, l["entry"]))]
+                ends = (True, False)
+                if len(main) == 1 and not [x for x in main[0]["exit_edges"] if x[2] != fn.exit and
+                                           not any(ev["e"] == "return" for ev in fn.blocks[x[2]]["ev"])]:
+                    ends = (True,)
                 for a in (True, False):
-                    for end in (True, False):
+                    for end in ends:
                         for emp in (True, False):
                             r = eval_return(fn, final["x"], it, e, end, emp, at, a)
                             if r != bool(f(a, end, emp)):
